@@ -164,6 +164,7 @@ class CurvatureCorrection(darsia.BaseCorrection):
             class_name=type(self).__name__,
             config=self.config,
             cache=self.cache if hasattr(self, "cache") else None,
+            interpolation_order=self.interpolation_order,
         )
 
         print(f"Curvature correction saved to {path}.")
@@ -187,6 +188,8 @@ class CurvatureCorrection(darsia.BaseCorrection):
         pre_cache = data.get("cache", None)
         if pre_cache is not None:
             self.cache = pre_cache.item()
+        if "interpolation_order" in data:
+            self.interpolation_order = int(data["interpolation_order"])
 
     def return_image(self) -> darsia.Image:
         """
